@@ -1348,6 +1348,16 @@ func flagStore(in ssa.Instruction, recv ssa.Value, depth int) (bool, bool) {
 		return false, false
 	}
 	cm := ci.Common()
+	// the Store bound as a method value of the flag (set := c.flag.Store; set(true))
+	if mc, ok := cm.Value.(*ssa.MakeClosure); ok && len(mc.Bindings) == 1 && len(cm.Args) == 1 {
+		if wf, ok := mc.Fn.(*ssa.Function); ok && strings.HasPrefix(wf.Synthetic, "bound method wrapper") {
+			if inner := soleCall(wf); inner != nil && inner.Common().StaticCallee() != nil && inner.Common().StaticCallee().Name() == "Store" {
+				if fa, ok := mc.Bindings[0].(*ssa.FieldAddr); ok && fieldVarOf(fa) != nil && isAtomicBool(fieldVarOf(fa).Type()) && fa.X == recv {
+					return constBool(cm.Args[0])
+				}
+			}
+		}
+	}
 	sc := cm.StaticCallee()
 	if sc == nil || len(cm.Args) == 0 {
 		return false, false
